@@ -4,6 +4,7 @@ import (
 	"fmt"
 	"io"
 	"math"
+	"math/big"
 
 	"github.com/berquerant/crd/errorx"
 	"gitlab.com/gomidi/midi/v2/gm"
@@ -31,6 +32,10 @@ type Writer interface {
 	Marker(text string)
 	Close()
 	Rest(value float64)
+	// NoteExact and RestExact are Note and Rest for an exact value: a float64
+	// near half a tick can be rounded to the wrong side.
+	NoteExact(value *big.Rat, velocity uint8, key ...uint8) error
+	RestExact(value *big.Rat)
 	WriteTo(out io.Writer) (int64, error)
 }
 
@@ -75,6 +80,19 @@ func (w MIDIWriter) newTicks(multiplier float64) uint32 {
 		return math.MaxUint32
 	}
 	return uint32(t)
+}
+
+// newTicksExact rounds the exact tick count, half a tick up.
+func (w MIDIWriter) newTicksExact(multiplier *big.Rat) uint32 {
+	t := new(big.Rat).Mul(multiplier, new(big.Rat).SetUint64(uint64(w.quoaterNoteTicks)))
+	// floor(t + 1/2)
+	n := new(big.Int).Add(new(big.Int).Lsh(t.Num(), 1), t.Denom())
+	n.Quo(n, new(big.Int).Lsh(t.Denom(), 1))
+	if !n.IsUint64() || n.Uint64() > maxTickDelta {
+		// cannot be encoded, WriteTo refuses it
+		return math.MaxUint32
+	}
+	return uint32(n.Uint64())
 }
 
 func (w *MIDIWriter) add(op *TrackOp) {
@@ -150,14 +168,19 @@ func (e *errWriter) Write(p []byte) (int, error) {
 }
 
 func (w *MIDIWriter) Note(value float64, velocity uint8, key ...uint8) error {
+	return w.note(w.newTicks(value), velocity, key...)
+}
+
+func (w *MIDIWriter) NoteExact(value *big.Rat, velocity uint8, key ...uint8) error {
+	return w.note(w.newTicksExact(value), velocity, key...)
+}
+
+func (w *MIDIWriter) note(nextTicks uint32, velocity uint8, key ...uint8) error {
 	if len(key) == 0 {
 		return errorx.Invalid("midi note requires keys")
 	}
 
-	var (
-		ticks     = w.getTickDeltaAndClear()
-		nextTicks = w.newTicks(value)
-	)
+	ticks := w.getTickDeltaAndClear()
 	for i, k := range key {
 		if i == 0 {
 			w.addFixed(ticks, i, &NoteOn{
@@ -191,6 +214,10 @@ func (w *MIDIWriter) Note(value float64, velocity uint8, key ...uint8) error {
 
 func (w *MIDIWriter) Rest(value float64) {
 	w.addTickDelta(w.newTicks(value))
+}
+
+func (w *MIDIWriter) RestExact(value *big.Rat) {
+	w.addTickDelta(w.newTicksExact(value))
 }
 
 func (w *MIDIWriter) Tempo(bpm int) {
